@@ -8,6 +8,7 @@ CONSTANTS
   GapFix = FALSE
   CertRounds = {1, 2}
   Direct = FALSE
+  MidCrash = TRUE
   Timeouts = FALSE
 INVARIANT ContainerOK
 INVARIANT TopIsHeight
@@ -18,4 +19,6 @@ PROPERTY NoRerunCtl
 PROPERTY HeightMonotone
 PROPERTY HighestMonotone
 PROPERTY HistMonotoneExceptRerun
+PROPERTY RestartCoversLearned
+INVARIANT HistBehindHighest
 VIEW view
